@@ -57,13 +57,16 @@ def plant(rng, randoms, edges, frac=0.15):
     return nplant
 
 
-def make_case(rng, ref, k, sizes=None):
+def make_case(rng, ref, k, sizes=None, equal_mass_neighbours=False):
     H = int(rng.choice(sizes or [0, 1, 2, 17, 300, 1003, 5000]))
     P = int(rng.choice([0, 1, 50, 2000, 20000])) if H else 0
     lbox = float(rng.choice([500.0, 2000.0, 333.0, 250.5]))  # half the box need not be an integer
-    halo, part = hodref.gen_tables(rng, H, P, lbox=lbox, with_env=bool(k % 4))
-    sub = SUBSETS[k % 7]
-    tracers = hodref.gen_tracers(rng, sub, fancy=[False, True, 'sparse'][k % 3])
+    if equal_mass_neighbours:
+        # hosts of exactly equal mass next to each other in the tables, with different environments, every occupation term switched on
+        H, P = [300, 1003][k % 2], [4000, 20000][(k // 2) % 2]
+    halo, part = hodref.gen_tables(rng, H, P, lbox=lbox, with_env=bool(k % 4) or equal_mass_neighbours, mass_step=0.7 if equal_mass_neighbours else None)
+    sub = SUBSETS[k % 7] if not equal_mass_neighbours else [('LRG',), ('LRG', 'ELG'), ('LRG', 'ELG', 'QSO'), ('ELG', 'QSO')][k % 4]
+    tracers = hodref.gen_tracers(rng, sub, fancy=[False, True, 'sparse'][k % 3] if not equal_mass_neighbours else True)
     if (k // 3) % 2 and len(tracers) > 1:
         # the caller's dict may list the tracers in any order; results are labelled by tracer name
         names = list(tracers)
@@ -145,8 +148,13 @@ def check(run):
     ref = hodref.Reference(GH)
     rng = run.rng(0)
     ncase = 60 if run.quick else 2000
-    for k in range(ncase):
-        case = make_case(rng, ref, k, sizes=[0, 1, 2, 17, 300, 1003] if run.quick else None)
+    nequal = 6 if run.quick else 100
+    for k in range(ncase + nequal):
+        if k >= ncase:
+            case = make_case(rng, ref, k, equal_mass_neighbours=True)
+            case['desc']['family'] = 'equal-mass neighbours'
+        else:
+            case = make_case(rng, ref, k, sizes=[0, 1, 2, 17, 300, 1003] if run.quick else None)
         desc = case['desc']
         Nthread = int(rng.choice([1, 2, 3, 7, 16]))
         desc['Nthread'] = Nthread
